@@ -148,8 +148,18 @@ impl Suite for Console {
                 let r = catch_unwind(AssertUnwindSafe(|| {
                     node.runner.block_on(async move {
                         for s in case["sessions"].as_array().cloned().unwrap_or_default() {
-                            if let Err(e) = install_session(&app, &s).await {
-                                return json!({"r":"error","what":format!("install session: {}", e)});
+                            let mut tries = 0;
+                            loop {
+                                match install_session(&app, &s).await {
+                                    Ok(()) => break,
+                                    Err(e) => {
+                                        tries += 1;
+                                        if tries > 20 {
+                                            return json!({"r":"error","what":format!("install session: {}", e)});
+                                        }
+                                        tokio::time::sleep(std::time::Duration::from_millis(300)).await;
+                                    }
+                                }
                             }
                         }
                         if let Some(ms) = case["sleep_ms"].as_u64() {
@@ -192,7 +202,7 @@ impl Suite for Console {
                             };
                             match srv.call(req).await {
                                 Ok(resp) => {
-                                    let want_body = r["want_body"].as_bool().unwrap_or(false) || r.get("save_token").is_some();
+                                    let want_body = r["want_body"].as_bool().unwrap_or(false);
                                     let status = resp.status().as_u16();
                                     let hv = |n: &str| resp.headers().get(n).and_then(|v| v.to_str().ok()).map(|s| s.to_owned());
                                     let mut o = json!({
@@ -202,26 +212,29 @@ impl Suite for Console {
                                         "no_permission": hv("No-Permission").is_some(),
                                         "location": hv("Location"),
                                     });
-                                    if want_body {
-                                        let body = match actix_web::body::to_bytes(resp.into_body()).await {
-                                            Ok(b) => String::from_utf8_lossy(&b).into_owned(),
-                                            Err(_) => String::new(),
-                                        };
-                                        if let Some(name) = r.get("save_token").and_then(|x| x.as_str()) {
-                                            if let Ok(v) = serde_json::from_str::<Value>(&body) {
-                                                if let Some(t) = v["data"]["token"].as_str() {
-                                                    tokens.insert(name.to_owned(), t.to_owned());
-                                                    o["token_saved"] = Value::Bool(true);
-                                                }
+                                    let body = match actix_web::body::to_bytes(resp.into_body()).await {
+                                        Ok(b) => String::from_utf8_lossy(&b).into_owned(),
+                                        Err(_) => String::new(),
+                                    };
+                                    o["body_len"] = Value::from(body.len() as u64);
+                                    if let Some(name) = r.get("save_token").and_then(|x| x.as_str()) {
+                                        if let Ok(v) = serde_json::from_str::<Value>(&body) {
+                                            if let Some(t) = v["data"]["token"].as_str() {
+                                                tokens.insert(name.to_owned(), t.to_owned());
+                                                o["token_saved"] = Value::Bool(true);
                                             }
                                         }
+                                    }
+                                    if want_body {
                                         let mut b = body;
                                         if b.len() > 20000 {
-                                            b.truncate(20000);
+                                            let mut cut = 20000;
+                                            while !b.is_char_boundary(cut) {
+                                                cut -= 1;
+                                            }
+                                            b.truncate(cut);
                                         }
-                                        if r["want_body"].as_bool().unwrap_or(false) {
-                                            o["body"] = Value::String(b);
-                                        }
+                                        o["body"] = Value::String(b);
                                     }
                                     out.push(o);
                                 }
